@@ -35,9 +35,13 @@ class Rule:
     def require(self, config, n, what):
         """fail closed when fewer than `n` instances were found in `config`"""
         got = len([i for i in self.instances if i["config"] == config])
-        self.floor = max(self.floor or 0, n)
-        if got < n:
-            self.bad(config, "floor|%s" % what, "-", "only %d of the %d instances confirmed on the pinned tree were found (%s): the rule would pass vacuously" % (got, n, what))
+        # the count confirmed on the pinned tree is `n`; a behaviour-preserving refactoring may merge a few sites (two identical
+        # tails folded into one helper), so the rule fails closed only when fewer than 60 % of them are left (at least one)
+        need = n if n <= 1 else max(1, (n * 3 + 4) // 5)
+        self.floor = max(self.floor or 0, need)
+        self.counted = max(getattr(self, "counted", 0), n)
+        if got < need:
+            self.bad(config, "floor|%s" % what, "-", "only %d instances found (%d were confirmed on the pinned tree, at least %d are required: %s): the rule would pass vacuously" % (got, n, need, what))
 
 
 class Check:
@@ -112,6 +116,7 @@ class Check:
                 "instances": len(r.instances),
                 "holding": sum(1 for i in r.instances if i["ok"]),
                 "floor": r.floor,
+                "instances_on_pinned_tree": getattr(r, "counted", None),
                 "violations": [v["key"] for v in r.violations],
                 "notes": r.notes,
                 "instance_list": [{"config": i["config"], "key": i["key"], "where": i["where"], "ok": i["ok"]} for i in r.instances][:400],
